@@ -219,6 +219,20 @@ theorem strip_idem (s : String) : stripCmd (stripCmd s) = stripCmd s := by
   simp only [stripCmd, Py.stripChars, String.toList_ofList]
   rw [Py.stripL_idem]
 
+/-- for every command, every world and every fuel: blanks, tabs and newlines put before and after the command text do not
+    change the verdict or its reason – the analysis sees the command only through its stripped text -/
+theorem analyze_padding_invariant (fuel : Nat) (s cwd : String) (rem : Bool) (pre suf : List Char)
+    (h1 : ∀ c ∈ pre, c = ' ' ∨ c = '\t' ∨ c = '\n') (h2 : ∀ c ∈ suf, c = ' ' ∨ c = '\t' ∨ c = '\n') :
+    analyzeStr w h fuel (String.ofList (pre ++ s.toList ++ suf)) cwd rem = analyzeStr w h fuel s cwd rem := by
+  have hs : stripCmd (String.ofList (pre ++ s.toList ++ suf)) = stripCmd s := by
+    simp only [stripCmd, Py.stripChars, String.toList_ofList]
+    rw [Py.stripL_pad _ pre s.toList suf (fun c hc => (strip_pred c).mpr (h1 c hc)) (fun c hc => (strip_pred c).mpr (h2 c hc))]
+  cases fuel with
+  | zero => rfl
+  | succ n =>
+    unfold analyzeStr
+    rw [hs]
+
 example : ∃ pre suf, " \tls -l\n".toList = pre ++ (stripCmd " \tls -l\n").toList ++ suf ∧ pre = [' ', '\t'] ∧ suf = ['\n'] :=
   ⟨[' ', '\t'], ['\n'], by decide +kernel, rfl, rfl⟩
 
